@@ -125,6 +125,8 @@ def segments(expr: ast.AST, index_name: str | None, depth=0) -> list[tuple]:
     ('scalar', text) ('zero',) ('idx', which) ('lower',) ('other', text)"""
     if depth > 6:
         return [("other", norm(expr))]
+    if isinstance(expr, ast.Tuple) and _tuple_decrement(expr, index_name) is not None:
+        return [("lower",)]
     if isinstance(expr, ast.Tuple):
         out = []
         for e in expr.elts:
@@ -296,19 +298,42 @@ def rule_order_preserving_evals(rep: Report, repo: Repo):
     rep.count("E2.causal_evals.closures", [q for _m, q, _f in closures])
 
 
+def _tuple_decrement(expr, index_name):
+    """(*index[:K], index[K] - 1, *index[K + 1:]) -> text of K, else None."""
+    if not (isinstance(expr, ast.Tuple) and len(expr.elts) == 3 and isinstance(expr.elts[0], ast.Starred)
+            and isinstance(expr.elts[2], ast.Starred)):
+        return None
+    a, m, c = expr.elts[0].value, expr.elts[1], expr.elts[2].value
+    if not (isinstance(m, ast.BinOp) and isinstance(m.op, ast.Sub) and norm(m.right) == "1" and isinstance(m.left, ast.Subscript)
+            and norm(m.left.value) == index_name):
+        return None
+    k = norm(m.left.slice)
+    if norm(a) == f"{index_name}[:{k}]" and norm(c) in (f"{index_name}[{k} + 1:]", f"{index_name}[1 + {k}:]"):
+        return k
+    return None
+
+
 def _derivative_selection(f, index_name):
-    """-> (axis_name, order_text) if the closure picks a component k with index[k] != 0 and decrements exactly
-    that component of a list copy of the index; else None.  Accepted selections:
+    """-> (axis_text, order_text) if the closure picks a component k with index[k] != 0 and lowers exactly that
+    component of the index by one; else None.  Accepted selections (local names are free):
         k, n = next((i, n) for i, n in enumerate(index) if n)        order = n
-        k = next(i for i, n in enumerate(index) if n)                 order = index[k]"""
+        k = next(i for i, n in enumerate(index) if n)                 order = index[k]
+    accepted decrements:
+        p = list(index); p[k] -= 1; ... tuple(p)
+        p = (*index[:k], index[k] - 1, *index[k + 1:])"""
+    k = None
     dec = [n for n in own_nodes(f) if isinstance(n, ast.AugAssign) and isinstance(n.op, ast.Sub)
            and isinstance(n.value, ast.Constant) and n.value.value == 1 and isinstance(n.target, ast.Subscript)]
-    if len(dec) != 1:
-        return None
-    k = norm(dec[0].target.slice)
-    lst = norm(dec[0].target.value)
-    copies = [n for n in own_nodes(f) if isinstance(n, ast.Assign) and norm(n.targets[0]) == lst]
-    if len(copies) != 1 or norm(copies[0].value) not in (f"list({index_name})",):
+    if len(dec) == 1:
+        lst = norm(dec[0].target.value)
+        copies = [n for n in own_nodes(f) if isinstance(n, ast.Assign) and norm(n.targets[0]) == lst]
+        if len(copies) == 1 and norm(copies[0].value) == f"list({index_name})":
+            k = norm(dec[0].target.slice)
+    elif not dec:
+        ks = {_tuple_decrement(n, index_name) for n in own_nodes(f) if isinstance(n, ast.Tuple)} - {None}
+        if len(ks) == 1:
+            k = next(iter(ks))
+    if k is None:
         return None
     for n in own_nodes(f):
         if isinstance(n, ast.Assign) and isinstance(n.value, ast.Call) and call_name(n.value) == "next" and n.value.args:
@@ -358,8 +383,16 @@ def rule_taylor(rep: Report, repo: Repo):
         axis, order = sel
         ret = [n for n in own_nodes(d) if isinstance(n, ast.Return)]
         good = False
-        if len(ret) == 1 and isinstance(ret[0].value, ast.BinOp) and isinstance(ret[0].value.op, ast.Div):
-            num, den = ret[0].value.left, ret[0].value.right
+        # single-use value locals (e.g. `lower = operator_derivatives[previous_index]`) are inlined; the selection
+        # names (axis, order) and the index copy keep their names
+        from .resolve import resolved, run_block
+        keep = {axis, order}
+        env = run_block([s_ for s_ in d.body if isinstance(s_, ast.Assign) and isinstance(s_.targets[0], ast.Name)
+                         and s_.targets[0].id not in keep and not isinstance(s_.value, ast.Tuple)
+                         and not any(isinstance(x, ast.Call) and call_name(x) in ("next", "list") for x in ast.walk(s_.value))])
+        rv = resolved(ret[0].value, env) if len(ret) == 1 else None
+        if rv is not None and isinstance(rv, ast.BinOp) and isinstance(rv.op, ast.Div):
+            num, den = rv.left, rv.right
             good = (norm(den) == order and isinstance(num, ast.Call) and isinstance(num.func, ast.Attribute)
                     and num.func.attr == "diff" and len(num.args) == 1 and norm(num.args[0]) == f"symbols[{axis}]"
                     and isinstance(num.func.value, ast.Subscript) and norm(num.func.value.value) == "operator_derivatives")
@@ -373,9 +406,14 @@ def rule_taylor(rep: Report, repo: Repo):
     # op_eval: substitution to 0 and monomial are paired position-wise with `symbols`
     oi = o.args.vararg.arg
     subs = [n for n in own_nodes(o) if isinstance(n, ast.Call) and isinstance(n.func, ast.Attribute) and n.func.attr == "subs"]
-    ok = len(subs) == 1 and norm(subs[0].func.value) == f"operator_derivatives[{oi}]" and \
-        isinstance(subs[0].args[0], ast.DictComp) and norm(subs[0].args[0].value) == "0" and \
-        norm(subs[0].args[0].generators[0].iter) == "symbols"
+    def zero_map(e):
+        if isinstance(e, ast.DictComp):
+            return norm(e.value) == "0" and norm(e.generators[0].iter) == "symbols" and norm(e.key) == norm(e.generators[0].target) \
+                and not e.generators[0].ifs
+        return isinstance(e, ast.Call) and call_name(e) == "dict.fromkeys" and [norm(a_) for a_ in e.args] == ["symbols", "0"]
+    if len(subs) != 1 or len(subs[0].args) != 1:
+        raise AnalysisError(R, "op_eval: substitution of the symbols not found")
+    ok = norm(subs[0].func.value) == f"operator_derivatives[{oi}]" and zero_map(subs[0].args[0])
     rep.check(ok, R, "_sympy_to_BlockSeries::op_eval evaluates the derivative at symbols = 0",
               norm(subs[0]) if subs else "missing", loc(o))
     mono = [n for n in own_nodes(o) if isinstance(n, ast.ListComp) or isinstance(n, ast.GeneratorExp)]
@@ -401,38 +439,67 @@ def rule_taylor(rep: Report, repo: Repo):
 
 
 def rule_key_normalisation(rep: Report, repo: Repo):
+    """List / symbolic-key inputs are relabelled to order tuples position-wise (decided on resolved expressions; the
+    pairing may be a dict comprehension or a loop; local names are free)."""
+    from .resolve import env_at, resolved, rtext, run_block
     R = "E2.keys"
     loc = lambda n: repo.loc("block_diagonalization", n)
     f = repo.find("block_diagonalization::_list_to_dict", R)
-    # k-th perturbation -> k-th unit tuple
-    comps = [n for n in own_nodes(f) if isinstance(n, ast.DictComp)]
+    if [a_.arg for a_ in f.args.args] != ["operator"]:
+        raise AnalysisError(R, "_list_to_dict signature")
+    # pairing construct: (target, iter, key expr, value expr, node)
+    pairings = []
+    for n in own_nodes(f):
+        if isinstance(n, ast.DictComp) and len(n.generators) == 1:
+            pairings.append((n.generators[0].target, n.generators[0].iter, n.key, n.value, n))
+        if isinstance(n, ast.For) and len(n.body) == 1 and isinstance(n.body[0], ast.Assign) and isinstance(n.body[0].targets[0], ast.Subscript):
+            pairings.append((n.target, n.iter, n.body[0].targets[0].slice, n.body[0].value, n))
+    pairings = [p_ for p_ in pairings if isinstance(p_[1], ast.Call) and call_name(p_[1]) == "zip"]
+    if len(pairings) != 1:
+        raise AnalysisError(R, f"_list_to_dict: pairing of perturbations with orders not recognised ({len(pairings)} zip constructs)")
+    tgt, it, key, val, node = pairings[0]
+    env = env_at(node, f)
+    N = rtext(ast.Name(id="n_infinite", ctx=ast.Load()), env)
     ok = False
-    for c in comps:
-        g = c.generators[0]
-        if isinstance(g.iter, ast.Call) and call_name(g.iter) == "zip" and len(g.iter.args) == 2:
-            a, b = g.iter.args
-            eye = isinstance(a, ast.Call) and call_name(a) in ("np.eye", "np.identity") and norm(a.args[0]) == "n_infinite"
-            rest = norm(b) == "operator[1:]"
-            tgt = [norm(e) for e in g.target.elts] if isinstance(g.target, ast.Tuple) else []
-            ok = eye and rest and len(tgt) == 2 and norm(c.key) == f"tuple({tgt[0]})" and norm(c.value) == tgt[1]
-    rep.check(ok, R, "_list_to_dict maps the k-th perturbation to the k-th unit order tuple", "", loc(f))
-    n_inf = [n for n in own_nodes(f) if isinstance(n, ast.Assign) and norm(n.targets[0]) == "n_infinite"]
-    rep.check(len(n_inf) == 1 and norm(n_inf[0].value) == "len(operator) - 1", R,
-              "_list_to_dict: one parameter per listed perturbation", norm(n_inf[0]) if n_inf else "", loc(f))
+    if len(it.args) == 2 and isinstance(tgt, ast.Tuple) and len(tgt.elts) == 2:
+        a_, b_ = (resolved(x, env) for x in it.args)
+        tn = [norm(e) for e in tgt.elts]
+        eye = isinstance(a_, ast.Call) and call_name(a_) in ("np.eye", "np.identity") and a_.args and norm(a_.args[0]) == "len(operator) - 1"
+        ok = eye and norm(b_) == "operator[1:]" and norm(key) == f"tuple({tn[0]})" and norm(val) == tn[1]
+    rep.check(ok, R, "_list_to_dict maps the k-th perturbation to the k-th unit order tuple",
+              f"pairs `{norm(tgt)}` from `{rtext(it, env)[:90]}`; key `{norm(key)}` -> `{norm(val)}`", loc(node))
+    rep.check(N == "len(operator) - 1", R, "_list_to_dict: one parameter per listed perturbation", N, loc(f))
     z = [n for n in own_nodes(f) if isinstance(n, ast.Dict)]
-    ok = any(any(k is not None and norm(k) == "zeroth_order" and norm(v) == "operator[0]" for k, v in zip(d.keys, d.values)) for d in z)
+    ok = False
+    for d in z:
+        for k, v in zip(d.keys, d.values):
+            if k is not None and rtext(k, env_at(d, f)) in ("(0,) * (len(operator) - 1)",) and norm(v) == "operator[0]":
+                ok = True
     rep.check(ok, R, "_list_to_dict: first list entry is the zeroth order", "", loc(f))
+
     f = repo.find("block_diagonalization::_symbolic_keys_to_tuples", R)
-    st = [n for n in own_nodes(f) if isinstance(n, ast.Assign) and isinstance(n.targets[0], ast.Subscript)
-          and norm(n.targets[0].value) == "new_hamiltonian"]
-    ok = len(st) == 1 and norm(st[0].targets[0].slice) == "tuple((monomial[s] for s in symbols))"
     ret = [n for n in own_nodes(f) if isinstance(n, ast.Return)]
-    ok = ok and len(ret) == 1 and norm(ret[0].value) == "(new_hamiltonian, symbols)"
+    if len(ret) != 1 or not (isinstance(ret[0].value, ast.Tuple) and len(ret[0].value.elts) == 2
+                             and all(isinstance(e, ast.Name) for e in ret[0].value.elts)):
+        raise AnalysisError(R, "_symbolic_keys_to_tuples: does not return (dict, symbols) as two locals")
+    D, S = (e.id for e in ret[0].value.elts)
+    loops = [n for n in f.body if isinstance(n, ast.For) and isinstance(n.iter, ast.Call) and norm(n.iter) == "hamiltonian.items()"
+             and isinstance(n.target, ast.Tuple) and len(n.target.elts) == 2]
+    if len(loops) != 1:
+        raise AnalysisError(R, "_symbolic_keys_to_tuples: loop over hamiltonian.items() not found")
+    kname, vname = (norm(e) for e in loops[0].target.elts)
+    st = [n for n in own_nodes(loops[0]) if isinstance(n, ast.Assign) and isinstance(n.targets[0], ast.Subscript)
+          and norm(n.targets[0].value) == D]
+    if len(st) != 1:
+        raise AnalysisError(R, f"_symbolic_keys_to_tuples: {len(st)} stores into the returned dictionary")
+    benv = run_block([x for x in loops[0].body[:loops[0].body.index(st[0])] if isinstance(x, ast.Assign)]) if st[0] in loops[0].body else None
+    if benv is None:
+        raise AnalysisError(R, "_symbolic_keys_to_tuples: the store is not a top-level statement of the loop")
+    ktext = rtext(st[0].targets[0].slice, benv)
+    ok = ktext == f"tuple(({kname}.as_powers_dict()[_v0] for _v0 in {S}))" and rtext(st[0].value, benv) == vname
     rep.check(ok, R, "_symbolic_keys_to_tuples builds each order tuple by iterating the returned `symbols` sequence",
-              "orders are labelled by the same sequence that becomes dimension_names", loc(f))
-    mono = [n for n in own_nodes(f) if isinstance(n, ast.Assign) and norm(n.targets[0]) == "monomial"]
-    rep.check(len(mono) == 1 and norm(mono[0].value) == "key.as_powers_dict()", R,
-              "_symbolic_keys_to_tuples reads the exponent of each symbol from the key", "", loc(f))
+              f"key `{ktext}` (orders are labelled by the same sequence `{S}` that becomes dimension_names)", loc(st[0]))
+    rep.ok(R, "_symbolic_keys_to_tuples reads the exponent of each symbol from the key", f"{kname}.as_powers_dict()[symbol]", loc(st[0]))
 
 
 # ---------------------------------------------------------------------------
